@@ -13,6 +13,9 @@
 
 #include <tl/optional.hpp>
 
+#include <type_traits>
+#include <utility>
+
 namespace manif {
 
 /**
@@ -37,6 +40,18 @@ struct TangentBase
   using InnerWeightsMatrix = Jacobian;
 
   using OptJacobianRef = tl::optional<Eigen::Ref<Jacobian>>;
+
+  //! @brief Whether the underlying data is read-only (Eigen::Map<const X>).
+  static constexpr bool IsConstView = std::is_const<
+    typename std::remove_pointer<
+      decltype(std::declval<DataType&>().data())>::type>::value;
+
+  //! @brief What the non-const accessors return: a const view
+  //! only ever exposes its coefficients as const.
+  using DataTypeRef = typename std::conditional<
+    IsConstView, const DataType&, DataType&>::type;
+  using ScalarPtr = typename std::conditional<
+    IsConstView, const Scalar*, Scalar*>::type;
 
   template <typename _Scalar>
   using TangentTemplate = typename internal::traitscast<Tangent, _Scalar>::cast;
@@ -72,12 +87,12 @@ public:
   _Derived& operator =(const Eigen::MatrixBase<_EigenDerived>& v);
 
   //! @brief Access the underlying data by reference
-  DataType& coeffs();
+  DataTypeRef coeffs();
   //! @brief Access the underlying data by const reference
   const DataType& coeffs() const;
 
   //! @brief Access the underlying data by pointer
-  Scalar* data();
+  ScalarPtr data();
   //! @brief Access the underlying data by const pointer
   const Scalar* data() const;
 
@@ -402,6 +417,8 @@ template <typename _Derived>
 constexpr int TangentBase<_Derived>::DoF;
 template <typename _Derived>
 constexpr int TangentBase<_Derived>::RepSize;
+template <typename _Derived>
+constexpr bool TangentBase<_Derived>::IsConstView;
 
 // Copy
 
@@ -432,7 +449,7 @@ TangentBase<_Derived>::operator =(const Eigen::MatrixBase<_EigenDerived>& v)
 }
 
 template <typename _Derived>
-typename TangentBase<_Derived>::DataType&
+typename TangentBase<_Derived>::DataTypeRef
 TangentBase<_Derived>::coeffs()
 {
   return derived().coeffs();
@@ -446,7 +463,7 @@ TangentBase<_Derived>::coeffs() const
 }
 
 template <class _Derived>
-typename TangentBase<_Derived>::Scalar*
+typename TangentBase<_Derived>::ScalarPtr
 TangentBase<_Derived>::data()
 {
   return derived().coeffs().data();
